@@ -8,6 +8,17 @@ import (
 	"github.com/gobwas/ws"
 )
 
+// reserved bits the installed extension (if any) sets on first / continuation frames
+var vRsvFirst, vRsvCont byte
+
+// vWantRsv: the reserved bits a frame with this opcode must carry.
+func vWantRsv(op byte) byte {
+	if op == 0 {
+		return vRsvCont
+	}
+	return vRsvFirst
+}
+
 func vMkWriter(dst io.Writer, server bool, bufLen int, op ws.OpCode) *Writer {
 	off := 2
 	if !server {
@@ -16,5 +27,21 @@ func vMkWriter(dst io.Writer, server bool, bufLen int, op ws.OpCode) *Writer {
 	// the state as applications hold it: the side bit alone or together with the flags that come
 	// with negotiated extensions / an open fragmented message on the same connection
 	st := vSide(server) | []ws.State{0, ws.StateExtended, ws.StateExtended | ws.StateFragmented}[vChoose("stateflags", 3)]
-	return NewWriterBuffer(dst, st, op, make([]byte, off+bufLen))
+	w := NewWriterBuffer(dst, st, op, make([]byte, off+bufLen))
+	// an extension that sets reserved bits: vRsvFirst on the first frame of a message (the frame
+	// carrying the message opcode), vRsvCont on continuation frames (0/0 = no extension installed)
+	vRsvFirst, vRsvCont = 0, 0
+	if vChoose("ext", 2) == 1 {
+		vRsvFirst, vRsvCont = vU8("rsvfirst")&7, vU8("rsvcont")&7
+		a, b := vRsvFirst, vRsvCont
+		w.SetExtensions(SendExtensionFunc(func(h ws.Header) (ws.Header, error) {
+			if h.OpCode == ws.OpContinuation {
+				h.Rsv = b
+			} else {
+				h.Rsv = a
+			}
+			return h, nil
+		}))
+	}
+	return w
 }
